@@ -58,4 +58,11 @@ def run(ctx):
             t.raw(pure.ev_finalize_sym(ida, b"S" + X[1:], b"S" + Y[1:], K, pw))
             t.raw(pure.ev_finalize_sym(ida, b"A" + X[1:], b"S" + Y[1:], b"B" + K[1:], pw))
     traces.append(t.to_json())
+    # very long arguments
+    t = Trace("finalize-long", uni)
+    big = bytes((i * 7 + 3) % 256 for i in range(70000))
+    for pw, ida, idb in [(big[:5000], b"a", b"b"), (b"pw", big, b"b"), (b"pw", b"a", big[:66000]), (big[:1025], big[:1024], big[:1023])]:
+        t.raw(pure.ev_finalize(ida, idb, b"X" * 32, b"Y" * 32, b"K" * 32, pw))
+        t.raw(pure.ev_finalize_sym(ida, b"X" * 32, b"Y" * 32, b"K" * 32, pw))
+    traces.append(t.to_json())
     ctx.validate(traces, uni, what="transcript")
